@@ -328,11 +328,11 @@ def summarize_crash(stderr):
 class Runner:
     """runs batches of histories for one container and accumulates statistics"""
 
-    def __init__(self, container, opts=None, valgrind=False):
+    def __init__(self, container, opts=None, valgrind=False, plain=False):
         self.container = container
         self.opts = opts or {}
         self.valgrind = valgrind
-        self.exe, err = build_harness(container, san=not valgrind)
+        self.exe, err = build_harness(container, san=not (valgrind or plain))
         if self.exe is None:
             raise RuntimeError("harness build failed for %s:\n%s" % (container, err))
         self.n_hist = 0
